@@ -141,3 +141,227 @@ add_virtual_sites = FunctionContract(
 )
 CONTRACTS = [add_virtual_sites]
 LEMMAS = []
+
+
+# ------------------------------------------------------------------ ComputeStructuralGoBias.compute_go_interaction
+FG = 'vermouth/rcsu/go_structure_bias.py'
+Contact3 = TTuple(TStr, TStr, TReal)                        # (site type a, site type b, backbone distance)
+NBP = TTuple(TStr, TStr, TReal, TReal, names=['a', 'b', 'sigma', 'epsilon'])
+
+
+def setup_cgi(cx):
+    NB = cx.heap('NONBOND', cx.box('NONBOND', TSeq(NBP)))
+    gtp = Box(None, kind='dict')
+    gtp.cd = {'nonbond_params': NB}
+    system = Obj('system', gmx_topology_params=gtp)
+    cx.spec_env['NonbondParam'] = Builtin(lambda e, atoms=None, sigma=None, epsilon=None, meta=None: (atoms[0], atoms[1], sigma, epsilon),
+                                          'NonbondParam')
+    cf = cx.val('conversion_factor', TReal)
+    cx.assume(cf.e > 0)
+    self = cx.obj('ComputeStructuralGoBias', system=system, conversion_factor=cf, go_eps=cx.val('go_eps', TReal))
+    return dict(self=self, contacts=cx.val('contacts', TSeq(Contact3)))
+
+
+compute_go_interaction = FunctionContract(
+    FG, 'ComputeStructuralGoBias.compute_go_interaction', 'C18', setup=setup_cgi,
+    ensures=[
+        # one pair potential per selected contact, in order, between the two site types, with sigma = distance / conversion
+        # factor (2^(1/6): see the ast-eval obligation on __init__) and the requested depth; earlier entries are kept
+        "len(NONBOND) == len(old(NONBOND)) + len(contacts)",
+        "forall(lambda k: implies(0 <= k and k < len(old(NONBOND)), NONBOND[k] == old(NONBOND)[k]))",
+        "forall(lambda k: implies(0 <= k and k < len(contacts), NONBOND[len(old(NONBOND)) + k].a == contacts[k][0] and "
+        "   NONBOND[len(old(NONBOND)) + k].b == contacts[k][1] and "
+        "   NONBOND[len(old(NONBOND)) + k].sigma * self.conversion_factor == contacts[k][2] and "
+        "   NONBOND[len(old(NONBOND)) + k].epsilon == self.go_eps))",
+    ],
+    modifies=['NONBOND'],
+    loops={'L1': LoopSpec(inv=[
+        "len(NONBOND) == len(old(NONBOND)) + _i",
+        "forall(lambda k: implies(0 <= k and k < len(old(NONBOND)), NONBOND[k] == old(NONBOND)[k]))",
+        "forall(lambda k: implies(0 <= k and k < _i, NONBOND[len(old(NONBOND)) + k].a == contacts[k][0] and "
+        "   NONBOND[len(old(NONBOND)) + k].b == contacts[k][1] and "
+        "   NONBOND[len(old(NONBOND)) + k].sigma * self.conversion_factor == contacts[k][2] and "
+        "   NONBOND[len(old(NONBOND)) + k].epsilon == self.go_eps))"], modifies=['NONBOND'])},
+    canary=[("sigma = dist / self.conversion_factor", "sigma = dist * self.conversion_factor"),
+            ("atoms=(atype_a, atype_b)", "atoms=(atype_a, atype_a)")],
+)
+CONTRACTS.append(compute_go_interaction)
+
+
+# ------------------------------------------------------------------ ComputeStructuralGoBias.contact_selector
+ResN, BBN = TKey('ResN'), TKey('BBN')
+MapEntry = TTuple(TInt, TStr, TInt, TStr)                   # (resid A, chain A, resid B, chain B) of the contact map
+Excl = TTuple(BBN, BBN)
+
+
+def _res(v):
+    # the residue node behind a value that the code has tested against None (the payload of an optional value)
+    if isinstance(v, SV) and isinstance(v.ty, TOpt):
+        return v.ty.get(v.e)
+    return to_z3(v, ResN)
+
+
+def setup_cs(cx):
+    eng = cx.eng
+    from pyvc.values import IterV
+    from pyvc.builtins import _int, list_append
+    from pyvc.interp import PyExc
+    gomap = cx.val('go_map', TSeq(MapEntry))
+    cx.spec_env['go_map'] = gomap
+    resnode = cx.uf('resnode', [TStr, TInt], TOpt(ResN))   # self._chain_id_to_resnode(chain, resid)
+    near = cx.uf('near', [ResN, ResN], TBool)              # within res_dist along the residue graph
+    n_bb = cx.uf('n_bb', [ResN], TInt)                     # number of backbone beads found in the residue
+    bb = cx.uf('bb', [ResN], BBN)                          # the first of them
+    distf = cx.uf('distbb', [BBN, BBN], TReal)             # numpy.linalg.norm(pos[a] - pos[b])
+    gotype = cx.uf('gotype', [ResN, TInt, TStr], TStr)     # type of the residue's Go site (get_go_type_from_attributes)
+    r_ = z3.Const('r', ResN.sort())
+    cx.assume(z3.ForAll([r_], n_bb(r_) >= 0))
+    EXCL = cx.heap('EXCL', cx.box('EXCL', TSeq(Excl)))
+    WARNED = cx.heap('WARNED', Box(TSeq(TStr)))
+    gp = Box(None, kind='dict')
+    gp.cd = {'go_map': (gomap,)}
+    system = Obj('system', go_params=gp)
+
+    def res_view(e, r):
+        return {'graph': Obj('resgraph', res=r)}
+    rnodes = Obj('NodeView', __getitem__=Builtin(res_view, 'res_graph.nodes[]'))
+    res_graph = Obj('res_graph', nodes=rnodes)
+    cp = Obj('connected_pairs')
+    cp.attrs['__getitem__'] = Builtin(lambda e, a: Obj('reach', __contains__=Builtin(lambda e2, b: wrap(TBool, near(_res(a), _res(b))), 'in')),
+                                      'connected_pairs[]')
+    nx = Obj('nx', all_pairs_shortest_path_length=Builtin(lambda e, g, cutoff=None: cp, 'all_pairs_shortest_path_length'))
+    cx.spec_env['nx'] = nx
+    cx.spec_env['dict'] = Builtin(lambda e, x: x, 'dict')
+    cx.spec_env['select_backbone'] = Obj('select_backbone')
+
+    def filter_minimal(e, graph, sel, bb_atomname=None):
+        r = _res(graph.attrs['res'])
+        return IterV(n_bb(r), lambda i: SV(BBN, bb(r)))      # only its first element is taken
+    cx.spec_env['filter_minimal'] = Builtin(filter_minimal, 'filter_minimal')
+
+    def ggt(e, graph, _old_resid=None, chain=None, prefix=None):
+        r = _res(graph.attrs['res'])
+        return IterV(1, None, concrete=[SV(TStr, gotype(r, to_z3(_old_resid, TInt), to_z3(chain, TStr)))])
+    cx.spec_env['get_go_type_from_attributes'] = Builtin(ggt, 'get_go_type_from_attributes')
+
+    def mol_node(e, n):
+        class P:
+            pass
+        o = Obj('pos', node=n)
+        o.attrs['__sub__'] = Builtin(lambda e2, other: Obj('diff', a=n, b=other.attrs['node']), '-')
+        return {'position': o}
+    mnodes = Obj('NodeView', __getitem__=Builtin(mol_node, 'molecule.nodes[]'))
+    inter = Box(None, kind='dict')
+    inter.cd = {'exclusions': EXCL}
+    molecule = cx.obj('Molecule', nodes=mnodes, interactions=inter)
+    linalg = Obj('linalg', norm=Builtin(lambda e, d: SV(TReal, distf(to_z3(d.attrs['a'], BBN), to_z3(d.attrs['b'], BBN))), 'norm'))
+    cx.spec_env['np'] = Obj('numpy', linalg=linalg)
+    cx.spec_env['Interaction'] = Builtin(lambda e, atoms=None, parameters=None, meta=None: (atoms[0], atoms[1]), 'Interaction')
+    log = Obj('LOGGER')
+    log.attrs['warning'] = Builtin(lambda e, *a, **k: list_append(e, WARNED, 'warning'), 'LOGGER.warning')
+    cx.spec_env['LOGGER'] = log
+
+    def sys_exit(e, code=0):
+        raise PyExc('SystemExit', (code,), e.line)
+    cx.spec_env['sys'] = Obj('sys', exit=Builtin(sys_exit, 'sys.exit'))
+    self = cx.obj('ComputeStructuralGoBias', system=system, res_graph=res_graph, res_dist=cx.val('res_dist', TInt),
+                  backbone=cx.val('backbone', TStr), moltype=cx.val('moltype', TStr),
+                  cutoff_long=cx.val('cutoff_long', TReal), cutoff_short=cx.val('cutoff_short', TReal))
+    self.attrs['_chain_id_to_resnode'] = Builtin(lambda e, chain, resid: SV(TOpt(ResN), resnode(to_z3(chain, TStr), to_z3(resid, TInt))),
+                                                 '_chain_id_to_resnode')
+    return dict(self=self, molecule=molecule)
+
+
+SPEC_CS = {
+    'rA': "lambda k: resnode(go_map[k][1], go_map[k][0])",
+    'rB': "lambda k: resnode(go_map[k][3], go_map[k][2])",
+    'dk': "lambda k: distbb(bb(rA(k)), bb(rB(k)))",
+    'tA': "lambda k: gotype(rA(k), go_map[k][0], go_map[k][1])",
+    'tB': "lambda k: gotype(rB(k), go_map[k][2], go_map[k][3])",
+    # the k-th listed contact is eligible: both residues exist, they are further apart along the residue graph than the
+    # minimum separation, and the backbone distance lies strictly between the cut-offs
+    'elig': "lambda k: rA(k) is not None and rB(k) is not None and not near(rA(k), rB(k)) and "
+            "self.cutoff_short < dk(k) and dk(k) < self.cutoff_long",
+    # the j-th listing is the reverse direction of the k-th
+    'reverse': "lambda j, k: tA(j) == tB(k) and tB(j) == tA(k) and dk(j) == dk(k)",
+}
+CS_INV = [
+    # contact_matrix: the eligible listings still waiting for their reverse direction, in order
+    "len(g_cm) == len(contact_matrix)",
+    "forall(lambda p: implies(0 <= p and p < len(contact_matrix), 0 <= g_cm[p] and g_cm[p] < _i and elig(g_cm[p]) and "
+    "   contact_matrix[p][0] == tA(g_cm[p]) and contact_matrix[p][1] == tB(g_cm[p]) and contact_matrix[p][2] == dk(g_cm[p])))",
+    # symmetrical_matrix / exclusions: one per listing whose reverse direction was listed (and eligible) before it
+    "len(g_sym) == len(symmetrical_matrix) and len(EXCL) == len(old(EXCL)) + len(g_sym)",
+    "forall(lambda q: implies(0 <= q and q < len(symmetrical_matrix), 0 <= g_sym[q] and g_sym[q] < _i and elig(g_sym[q]) and "
+    "   symmetrical_matrix[q][0] == tA(g_sym[q]) and symmetrical_matrix[q][1] == tB(g_sym[q]) and symmetrical_matrix[q][2] == dk(g_sym[q])))",
+    "forall(lambda q: implies(0 <= q and q < len(symmetrical_matrix), "
+    "   EXCL[len(old(EXCL)) + q][0] == bb(rA(g_sym[q])) and EXCL[len(old(EXCL)) + q][1] == bb(rB(g_sym[q]))))",
+    "len(g_par) == len(g_sym) and forall(lambda q: implies(0 <= q and q < len(symmetrical_matrix), "
+    "   0 <= g_par[q] and g_par[q] < g_sym[q] and elig(g_par[q]) and reverse(g_par[q], g_sym[q])))",
+    "forall(lambda q, r: implies(0 <= q and q < r and r < len(symmetrical_matrix), g_sym[q] < g_sym[r]))",
+    # every eligible listing went to exactly one of the two lists; it waits only if no waiting listing was its reverse
+    "forall(lambda k: implies(0 <= k and k < _i and elig(k), k in g_where))",
+    "forall(lambda k: implies(k in g_where and g_where[k] >= 0, g_where[k] < len(symmetrical_matrix) and g_sym[g_where[k]] == k))",
+    "forall(lambda k: implies(k in g_where and g_where[k] < 0, 0 <= -g_where[k] - 1 and -g_where[k] - 1 < len(contact_matrix) and "
+    "   g_cm[-g_where[k] - 1] == k and "
+    "   forall(lambda p: implies(0 <= p and p < -g_where[k] - 1, not reverse(g_cm[p], k)))))",
+    "forall(lambda k: implies(k in g_where, 0 <= k and k < _i and elig(k)))",
+    "forall(lambda k: implies(0 <= k and k < len(old(EXCL)), EXCL[k] == old(EXCL)[k]))",
+]
+contact_selector = FunctionContract(
+    FG, 'ComputeStructuralGoBias.contact_selector', 'C18', setup=setup_cs, spec_defs=SPEC_CS,
+    spec_env=dict(ResN=ResN, BBN=BBN),
+    locals=dict(contact_matrix=TSeq(Contact3), symmetrical_matrix=TSeq(Contact3), g_cm=TSeq(TInt), g_sym=TSeq(TInt), g_par=TSeq(TInt),
+                g_where=TMap(TInt, TInt)),
+    requires=["forall(lambda k: implies(0 <= k and k < len(go_map) and rA(k) is not None and rB(k) is not None, n_bb(rA(k)) > 0 and n_bb(rB(k)) > 0))"],
+    ghost_at={'entry': "g_cm = []\ng_sym = []\ng_par = []\ng_where = {}"},
+    result_ty=TSeq(Contact3),
+    ensures=[c.replace('_i', 'len(go_map)').replace('symmetrical_matrix', 'result') for c in CS_INV[2:]],
+    modifies=['EXCL', 'WARNED'],
+    loops={'L1': LoopSpec(
+        inv=CS_INV, modifies=['EXCL', 'WARNED', 'contact_matrix', 'symmetrical_matrix', 'g_cm', 'g_sym', 'g_par', 'g_where'],
+        locals=dict(contact_matrix=TSeq(Contact3), symmetrical_matrix=TSeq(Contact3), g_cm=TSeq(TInt), g_sym=TSeq(TInt), g_par=TSeq(TInt),
+                    g_where=TMap(TInt, TInt), g_c0=TInt, g_s0=TInt, bad_chains_warning=TBool),
+        ghost_pre="g_c0 = len(contact_matrix)\ng_s0 = len(symmetrical_matrix)",
+        ghost_end="if len(contact_matrix) > g_c0:\n    g_cm.append(_i)\n    g_where[_i] = -g_c0 - 1\n"
+                  "if len(symmetrical_matrix) > g_s0:\n    g_sym.append(_i)\n    g_where[_i] = g_s0\n"
+                  "    g_par.append(g_cm[contact_matrix.index((atype_b, atype_a, dist))])")},
+    canary=[("if self.cutoff_long > dist > self.cutoff_short:", "if self.cutoff_long >= dist > self.cutoff_short:"),
+            ("if resB not in connected_pairs[resA]:", "if resB in connected_pairs[resA]:"),
+            ("excl = Interaction(atoms=(bb_node_A, bb_node_B),", "excl = Interaction(atoms=(bb_node_A, bb_node_A),")],
+)
+CONTRACTS.append(contact_selector)
+
+
+# ------------------------------------------------------------------ constants, evaluated from the real source (ast)
+import ast as _ast
+import os as _os
+
+
+def extra_obligations(tier):
+    obs = []
+    try:
+        src = open(_os.path.join(_os.environ.get('VERIF_REPO', '/repo'), FG)).read()
+        tree = _ast.parse(src)
+        cls = next(st for st in tree.body if isinstance(st, _ast.ClassDef) and st.name == 'ComputeStructuralGoBias')
+        init = next(st for st in cls.body if isinstance(st, _ast.FunctionDef) and st.name == '__init__')
+        assigns = [st for st in _ast.walk(cls) if isinstance(st, _ast.Assign) and _ast.unparse(st.targets[0]) == 'self.conversion_factor']
+        ok, detail = False, 'no single assignment of self.conversion_factor in __init__'
+        if len(assigns) == 1 and assigns[0] in list(_ast.walk(init)):
+            expr = assigns[0].value
+            if all(isinstance(n, (_ast.BinOp, _ast.Constant, _ast.operator, _ast.UnaryOp, _ast.unaryop)) for n in _ast.walk(expr)):
+                val = eval(compile(_ast.Expression(expr), '<conversion_factor>', 'eval'), {'__builtins__': {}})
+                ok = abs(val - 2 ** (1 / 6)) < 1e-12
+                detail = 'self.conversion_factor = %s = %r; statement: 2^(1/6) = %r' % (_ast.unparse(expr), val, 2 ** (1 / 6))
+            else:
+                detail = 'self.conversion_factor = %s is not a constant expression' % _ast.unparse(expr)
+                obs.append(dict(name='constant:conversion_factor', status='unknown', backend='ast-eval', detail=detail,
+                                key='constant:conversion_factor', function='ComputeStructuralGoBias.__init__'))
+                return obs
+        obs.append(dict(name='constant:conversion_factor', status='unsat' if ok else 'sat', backend='ast-eval', detail=detail,
+                        key='constant:conversion_factor', function='ComputeStructuralGoBias.__init__'))
+    except Exception as ex:
+        obs.append(dict(name='constant:conversion_factor', status='unknown', backend='ast-eval',
+                        detail='extraction failed: %s: %s' % (type(ex).__name__, ex), key='constant:conversion_factor',
+                        function='ComputeStructuralGoBias.__init__'))
+    return obs
